@@ -68,7 +68,13 @@ def ev(e, leaf):
         if fn.endswith("ShareKnownValue::share_known_value"):
             return ev(args[1], leaf)
         if MUL.search(fn):
-            ops = [a for a in args if not (a[0] == "upvar" and a[1] in ("ctx", "record_id"))][:2]
+            # operand positions by callee signature: x.multiply(y, ctx, rid) / f(ctx, rid, a, b) / a * b
+            if fn.endswith("SecureMul::multiply"):
+                ops = args[:2]
+            elif re.search(r"(boolean_array_multiply|semi_honest_multiply|sh_multiply)$", fn):
+                ops = args[2:4]
+            else:
+                ops = args[:2]
             return ev(ops[0], leaf) * ev(ops[1], leaf)
         if re.search(r"ops::(Add::add|BitXor::bitxor)$", fn):
             return ev(args[0], leaf) + ev(args[1], leaf)
@@ -93,6 +99,17 @@ def upvar_leaf(env):
             return env[e[1]]
         return None
     return leaf
+
+
+def params(facts, root):
+    """parameter names of fn `root` by position (1-based), from debug info; the async body captures them under these names"""
+    b = facts.bodies.get(root)
+    out = {}
+    if b is not None:
+        for v in b.vars:
+            if len(v["p"]) == 1 and 1 <= v["p"][0] <= b.nargs:
+                out[v["p"][0]] = v["n"]
+    return out
 
 
 def closure_of(facts, root):
@@ -141,8 +158,13 @@ def gadget_bit(ctx, facts, root, name, ref, what):
         ctx.missing("GADGET", name)
         return
     ctx.count(bodies=1)
+    pn = params(facts, root)
+    nx, ny, nc = pn.get(3), pn.get(4), pn.get(5)
+    if None in (nx, ny, nc):
+        ctx.missing("GADGET", f"{name}: parameters (ctx, record_id, x, y, carry)")
+        return
     obb, out_e = ok_payload(b)
-    ws = deref_writes(b, "carry")
+    ws = deref_writes(b, nc)
     if out_e is None or len(ws) != 1:
         ctx.missing("GADGET", f"{name}: Ok(output) and a single `*carry = ..` write (found {len(ws)})")
         return
@@ -150,7 +172,7 @@ def gadget_bit(ctx, facts, root, name, ref, what):
     bad_o, bad_c = [], []
     try:
         for x, y, c in itertools.product((0, 1), repeat=3):
-            leaf = upvar_leaf({"x": x, "y": y, "carry": c})
+            leaf = upvar_leaf({nx: x, ny: y, nc: c})
             o = ev(out_e, leaf) % 2
             cn = ev(carry_e, leaf) % 2
             ro, rc = ref(x, y, c)
@@ -167,7 +189,7 @@ def gadget_bit(ctx, facts, root, name, ref, what):
     after = b.reachable(wbb) - {wbb}
     late = []
     for bb, t in b.calls():
-        if bb in after and any(flow.expr_of(b, a, max_depth=12) == ("upvar", "carry") for a in t["args"]):
+        if bb in after and any(flow.expr_of(b, a, max_depth=12) == ("upvar", nc) for a in t["args"]):
             late.append(bb)
     ctx.ob("GADGET", f"{name}:reads-before-write", not late, "the output uses the incoming carry (all reads precede `*carry = ..`)" if not late else "the carry is read again after it was overwritten: the output bit uses the outgoing instead of the incoming carry", site_of(b, late[0]) if late else site_of(b, wbb, widx))
 
@@ -187,9 +209,14 @@ def gadget_or(ctx, facts):
         b, obb, e = cand[0]
         ctx.count(bodies=1)
         bad = []
+        mul = [nd for nd in walk(e) if nd[0] == "call" and nd[1].endswith("SecureMul::multiply")]
+        ins = [nd[1] for nd in (mul[0][2][:2] if mul else ()) if nd[0] == "upvar"]
+        if len(ins) != 2:
+            ctx.ob("GADGET", f"{name}:expression", False, "cannot identify the two operands of the OR gadget's multiplication", site_of(b))
+            continue
         try:
             for a_, b_ in itertools.product((0, 1), repeat=2):
-                v = ev(e, upvar_leaf({"a": a_, "b": b_}))
+                v = ev(e, upvar_leaf({ins[0]: a_, ins[1]: b_}))
                 if pick == "closure":
                     v %= 2              # Boolean shares only: arithmetic is over GF(2)
                 if v != (1 if a_ or b_ else 0):
@@ -212,9 +239,13 @@ def gadget_select(ctx, facts):
         ctx.missing("GADGET", "select: Ok payload")
         return
     bad = []
+    pn = params(facts, "protocol::basics::if_else::select")
+    if None in (pn.get(3), pn.get(4), pn.get(5)):
+        ctx.missing("GADGET", "select: parameters (ctx, record_id, condition, true_value, false_value)")
+        return
     try:
         for c, t, f_ in itertools.product((0, 1), repeat=3):
-            v = ev(e, upvar_leaf({"condition": c, "true_value": t, "false_value": f_})) % 2
+            v = ev(e, upvar_leaf({pn[3]: c, pn[4]: t, pn[5]: f_})) % 2
             if v != (t if c else f_):
                 bad.append((c, t, f_, v))
     except Unknown as u:
@@ -284,17 +315,22 @@ def poly_mul(ctx, facts):
         return
     sbb, st = sends[0]
     z_e = flow.expr_of(b, st["args"][2], max_depth=80)
+    pn = params(facts, "protocol::basics::mul::semi_honest::multiplication_protocol")
+    if None in (pn.get(3), pn.get(4), pn.get(5), pn.get(6)):
+        ctx.missing("POLY", "multiplication_protocol: parameters (ctx, record_id, a, b, prss_left, prss_right)")
+        return
+    canon = {pn[3]: "a", pn[4]: "b"}
 
     def inst(i):
         def leaf(e):
             e = flow.strip_casts(e)
-            if e[0] == "call" and re.search(r"::(left_arr|left)$", e[1]) and e[2] and e[2][0][0] == "upvar":
-                return Poly.var("%s%d" % (e[2][0][1], i % 3))
-            if e[0] == "call" and re.search(r"::(right_arr|right)$", e[1]) and e[2] and e[2][0][0] == "upvar":
-                return Poly.var("%s%d" % (e[2][0][1], (i + 1) % 3))
-            if e == ("upvar", "prss_left"):
+            if e[0] == "call" and re.search(r"::(left_arr|left)$", e[1]) and e[2] and e[2][0][0] == "upvar" and e[2][0][1] in canon:
+                return Poly.var("%s%d" % (canon[e[2][0][1]], i % 3))
+            if e[0] == "call" and re.search(r"::(right_arr|right)$", e[1]) and e[2] and e[2][0][0] == "upvar" and e[2][0][1] in canon:
+                return Poly.var("%s%d" % (canon[e[2][0][1]], (i + 1) % 3))
+            if e == ("upvar", pn[5]):
                 return Poly.var("r%d" % (i % 3))
-            if e == ("upvar", "prss_right"):
+            if e == ("upvar", pn[6]):
                 return Poly.var("r%d" % ((i + 1) % 3))
             return None
         return leaf
@@ -371,7 +407,9 @@ def wiring(ctx, facts):
         ctx.ob("WIRE-carry", f"{name}:circuit", okk, f"uses {kind}" if okk else f"{name} runs the wrong ripple circuit", site_of(b, cbb))
         # operand order: (x, y) of the entry point go to (x, y) of the circuit
         xs, ys = str(flow.expr_of(b, ct["args"][2], max_depth=20)), str(flow.expr_of(b, ct["args"][3], max_depth=20))
-        oko = "('upvar', 'x')" in xs and "('upvar', 'y')" in ys and "('upvar', 'y')" not in xs
+        pn = params(facts, root)
+        ux, uy = str(("upvar", pn.get(3))), str(("upvar", pn.get(4)))
+        oko = ux in xs and uy in ys and uy not in xs and ux not in ys
         ctx.ob("WIRE-carry", f"{name}:operand-order", oko, "(x, y) passed in order" if oko else "the operands are passed to the circuit in the wrong order (computes y - x / y > x)", site_of(b, cbb))
         carry_locals = malsec._base_locals(b, ct["args"][4])
         obb, _ = ok_payload(b)
@@ -439,6 +477,9 @@ def wiring(ctx, facts):
             continue
         gbb, gt = gs[0]
         a = [flow.expr_of(b, x, max_depth=60) for x in gt["args"]]
+        pn = params(facts, root)
+        LOOPNAMES.clear()
+        LOOPNAMES.update({"x": pn.get(3), "y": pn.get(4)})
         ix = a[0][2][1] if a[0][0] == "call" and a[0][1].endswith("Context::narrow") and len(a[0][2]) > 1 else ("?",)
         ix = ix[2][0] if ix[0] == "call" and ix[1].endswith("From::from") else ("?",)
         items = [loop_item(ix), loop_item(a[2]), loop_item(a[3])]
@@ -448,13 +489,16 @@ def wiring(ctx, facts):
         ctx.ob("WIRE-loop", f"{name}:bit-operands", okb, "gadget gets (x_i, y_i)" if okb else "the gadget does not receive (x bit, y bit) of the zipped pair in this order", site_of(b, gbb))
         oki = items[0] is not None and items[0][1] == (0,)
         ctx.ob("WIRE-loop", f"{name}:narrow(bit index)", oki, "each bit runs in its own step S::from(i)" if oki else "the per-bit context is not narrowed with the enumerate index (two bits would share a step / PRSS index)", site_of(b, gbb))
-        okc = a[4] == ("upvar", "carry")
+        okc = a[4] == ("upvar", pn.get(5))
         ctx.ob("WIRE-loop", f"{name}:carry-threaded", okc, "the caller's carry is threaded through every bit" if okc else "the gadget does not receive the circuit's own carry reference", site_of(b, gbb))
         ps = [(bb, t) for bb, t in b.calls() if re.search(r"BitDecomposed::<S>::push$", F.callee(t)[0] or "")]
         okp = len(ps) == 1 and gadget in str(flow.expr_of(b, ps[0][1]["args"][1], max_depth=60)) and "BitDecomposed::<S>::with_capacity" in str(flow.expr_of(b, ps[0][1]["args"][0], max_depth=20))
         _, pe = ok_payload(b)
         okp = okp and pe is not None and "with_capacity" in str(pe)
         ctx.ob("WIRE-loop", f"{name}:push-in-order", okp, "result bits are pushed least-significant first and returned" if okp else "the gadget outputs are not pushed, in loop order, into the returned BitDecomposed", site_of(b, ps[0][0]) if ps else site_of(b))
+
+
+LOOPNAMES = {}
 
 
 def loop_item(e):
@@ -473,8 +517,8 @@ def loop_item(e):
     xa, yb = it[2]
     def slice_iter(z, name):
         return z[0] == "call" and z[1].endswith("::iter") and z[2][0] == ("call", "std::ops::Deref::deref", (("upvar", name),))
-    okx = slice_iter(xa, "x")
-    oky = yb[0] == "call" and yb[1].endswith("Iterator::chain") and slice_iter(yb[2][0], "y") and yb[2][1][0] == "call" and yb[2][1][1] == "std::iter::repeat" and const_bit(strip_ref(yb[2][1][2][0])) == 0
+    okx = slice_iter(xa, LOOPNAMES.get("x"))
+    oky = yb[0] == "call" and yb[1].endswith("Iterator::chain") and slice_iter(yb[2][0], LOOPNAMES.get("y")) and yb[2][1][0] == "call" and yb[2][1][1] == "std::iter::repeat" and const_bit(strip_ref(yb[2][1][2][0])) == 0
     return (bool(okx and oky), tail)
 
 
@@ -561,6 +605,11 @@ def reshare(ctx, facts):
         return
     ctx.count(bodies=1)
     dom = b.dominators()
+    pn = params(facts, "<secret_sharing::replicated::semi_honest::additive_share::AdditiveShare<F> as protocol::basics::reshare::Reshare<C>>::reshare")
+    n_self, n_ctx, n_to = pn.get(1), pn.get(2), pn.get(4)
+    if None in (n_self, n_ctx, n_to):
+        ctx.missing("POLY", "reshare: parameters (self, ctx, record_id, to_helper)")
+        return
     gl = gr = None
     for g in malsec.guards(b, r"PartialEq::eq$"):
         e = str(g[1])
@@ -590,7 +639,7 @@ def reshare(ctx, facts):
         if re.search(r"::send$", F.callee(t)[0] or "") and len(t["args"]) == 3:
             arm = "L" if flow.dominates(dom, gl[2][1], bb) else ("R" if flow.dominates(dom, gr[2][1], bb) else "T")
             ch = str(flow.expr_of(b, t["args"][0], max_depth=30))
-            sends[arm] = ("Left" if "'Left')" in ch else "Right", flow.expr_of(b, t["args"][2], max_depth=80), "to_helper" in ch)
+            sends[arm] = ("Left" if "'Left')" in ch else "Right", flow.expr_of(b, t["args"][2], max_depth=80), str(("upvar", n_to)) in ch)
     if set(arm_of) != {"L", "R", "T"} or set(sends) != {"L", "R"}:
         ctx.ob("POLY", "reshare:arms", False, f"expected three result arms and a send in each of the two sending arms (arms {sorted(arm_of)}, sends {sorted(sends)})", site_of(b))
         return
@@ -601,9 +650,9 @@ def reshare(ctx, facts):
         i = IDX[arm]
         def leaf(e):
             e = flow.strip_casts(e)
-            if e[0] == "call" and e[1].endswith("::left") and e[2] and e[2][0] == ("upvar", "self"):
+            if e[0] == "call" and e[1].endswith("::left") and e[2] and e[2][0] == ("upvar", n_self):
                 return Poly.var("x%d" % i)
-            if e[0] == "call" and e[1].endswith("::right") and e[2] and e[2][0] == ("upvar", "self"):
+            if e[0] == "call" and e[1].endswith("::right") and e[2] and e[2][0] == ("upvar", n_self):
                 return Poly.var("x%d" % ((i + 1) % 3))
             if e[0] == "proj" and e[1][0] == "call" and e[1][1].endswith("SharedRandomness::generate_fields"):
                 k = [z for z in e[2:] if isinstance(z, int)]
@@ -612,7 +661,7 @@ def reshare(ctx, facts):
             if is_recv(e):
                 # the value received from peer direction D of to_helper: the other sending arm's message
                 se = str(e)
-                m = re.search(r"recv_channel', \(\('upvar', 'ctx'\), \('call', 'helpers::Role::peer', \(\('upvar', 'to_helper'\), \('agg', \('helpers::Direction', '(Left|Right)'\)", se)
+                m = re.search(r"recv_channel', \(\('upvar', '" + re.escape(n_ctx) + r"'\), \('call', 'helpers::Role::peer', \(\('upvar', '" + re.escape(n_to) + r"'\), \('agg', \('helpers::Direction', '(Left|Right)'\)", se)
                 if not m or depth > 2:
                     raise Unknown("receive from an unrecognised channel")
                 src = "L" if m.group(1) == "Left" else "R"      # to_helper.peer(Left) is helper L
